@@ -59,6 +59,48 @@ def iter_source(fn, sym, e, depth=0):
     return ("unknown", e)
 
 
+def _table_touches(f, sym):
+    """methods called on `&mut` of the pretabulated Vec<usize> of resample_nearest after it was
+    collected ([] = none, None = the table local was not found)"""
+    tabs = [l for l in range(len(f.locals)) if (f.local_ty(l) or "") == "std::vec::Vec<usize>"]
+    if len(tabs) != 1:
+        return None
+    t = tabs[0]
+    refs = set()
+    for blk in f.blocks:
+        if blk["c"]:
+            continue
+        for st in blk["s"]:
+            if st[0] == "a" and st[2][0] == "ref" and st[2][1] in ("mut", "two_phase") and st[2][2][0] == t:
+                refs.add(st[1][0])
+    # reborrows
+    changed = True
+    while changed:
+        changed = False
+        for blk in f.blocks:
+            if blk["c"]:
+                continue
+            for st in blk["s"]:
+                if st[0] == "a" and st[2][0] == "ref" and st[2][1] in ("mut", "two_phase") \
+                        and st[2][2][0] in refs and st[1][0] not in refs:
+                    refs.add(st[1][0])
+                    changed = True
+    out = []
+    for c in f.calls():
+        if c.args and c.args[0][0] in ("c", "m") and c.args[0][1] and c.args[0][1][0] in refs:
+            if c.method in ("deref_mut", "as_mut_slice", "as_mut"):
+                if c.dest and len(c.dest) == 1:
+                    refs.add(c.dest[0])
+                continue
+            out.append(c.method or c.name)
+    # a second pass: methods on what deref_mut returned
+    for c in f.calls():
+        if c.args and c.args[0][0] in ("c", "m") and c.args[0][1] and c.args[0][1][0] in refs \
+                and (c.method or c.name) not in out and c.method not in ("deref_mut", "as_mut_slice", "as_mut"):
+            out.append(c.method or c.name)
+    return out
+
+
 def nearest_index(rep, prog, rule, strict=False):
     rep.rule(rule, "in resample_nearest the column index used with get_unchecked on a source row "
              "is an element of a table whose entries are min(.., B)/clamp(..) with B = "
@@ -97,7 +139,23 @@ def nearest_index(rep, prog, rule, strict=False):
         elif rs[0] == "call" and rs[1] == "clamp" and len(rs[2]) == 3:
             bound = rs[2][2]
         if bound is None:
-            rep.unk(rule, key, c.at, "table entries %s are not clamped" % fmt(r)[:120])
+            # no clamp where the entries are made: is the table repaired afterwards?
+            touch = _table_touches(f, sym)
+            if touch is None:
+                rep.unk(rule, key, c.at, "table entries %s are not clamped" % fmt(r)[:120])
+            elif not touch or all(m in ("last_mut", "first_mut", "get_mut", "index_mut", "last", "swap")
+                                  for m in touch):
+                rep.bad(rule, key + "|unclamped", c.at,
+                        "the table entries %s are not clamped to the last column of the row (%s): the "
+                        "position left + (x + 0.5) * scale is rounded in f64 and can land exactly on "
+                        "the right border for SEVERAL trailing destination pixels when the step is "
+                        "smaller than the spacing of doubles there, so an index equal to the row "
+                        "length reaches get_unchecked" % (
+                            fmt(r)[:100], "only single entries are adjusted afterwards: %s" %
+                            ", ".join(sorted(set(touch))) if touch else "nothing adjusts the table afterwards"))
+            else:
+                rep.unk(rule, key, c.at, "table entries %s are not clamped where they are made; the "
+                        "table is changed through %s afterwards" % (fmt(r)[:80], ", ".join(sorted(set(touch)))))
             continue
         b = strip_all(bound)
         # which view do the rows come from?
